@@ -67,6 +67,20 @@ static void blocker_cb(struct upump_blocker *blocker)
     upump_blocker_free(blocker);
 }
 
+/* malloc is wrapped (-Wl,--wrap=malloc): the next allocation can be refused (ballocfail) */
+void *__real_malloc(size_t n);
+static bool fail_next_malloc;
+static int refused_mallocs;
+void *__wrap_malloc(size_t n)
+{
+    if (fail_next_malloc) {
+        fail_next_malloc = false;
+        refused_mallocs++;
+        return NULL;
+    }
+    return __real_malloc(n);
+}
+
 static bool do_balloc(int slot)
 {
     if (pump == NULL || blk[slot] != NULL)
@@ -397,6 +411,21 @@ int main(void)
         } else if (!strcmp(op, "balloc")) {
             int slot = atoi(a1) - 1;
             legal = slot >= 0 && slot < NB && do_balloc(slot);
+        } else if (!strcmp(op, "ballocfail")) {
+            /* the allocation of the blocker is refused: nothing may happen to the pump */
+            int slot = atoi(a1) - 1;
+            legal = slot >= 0 && slot < NB && pump != NULL && blk[slot] == NULL;
+            if (legal) {
+                upump_mgr_vacuum(mgr);          /* no recycled blocker: malloc will be asked */
+                int before = refused_mallocs;
+                fail_next_malloc = true;
+                struct upump_blocker *b = upump_blocker_alloc(pump, blocker_cb, (void *)(intptr_t)slot);
+                fail_next_malloc = false;
+                if (b != NULL || refused_mallocs != before + 1) {
+                    fprintf(stderr, "ballocfail: the allocation was not refused\n");
+                    exit(3);
+                }
+            }
         } else if (!strcmp(op, "bfree")) {
             int slot = atoi(a1) - 1;
             legal = slot >= 0 && slot < NB && blk[slot] != NULL;
